@@ -4,8 +4,9 @@ Every property reads "the outcome is a function of the inputs of *this* request 
 an earlier request, node or iteration leaks into the next one, each visible in the shape of the code:
 
 Z7   hand-written memo tables (`try: return C[k] except KeyError: ... C[k] = v`, `if k in C: return C[k]`): the key must
-     determine the remembered value.  A key component `id(x)` / `hash(x)` / `len(x)` / `str(x)` / `repr(x)` never does
-     (ids are recycled once the object is freed; the others conflate distinct values); a component `type(x)` /
+     determine the remembered value.  A key component `id(x)` / `hash(x)` / `len(x)` / `str(x)` / `repr(x)` does not
+     (ids are recycled once the object is freed — unless the table belongs to a request context that itself keeps the
+     schema object or document node x alive; the others conflate distinct values); a component `type(x)` /
      `x.__class__` does only when the miss path uses `x` through type-determined predicates alone (isinstance,
      issubclass, inspect.isawaitable / iscoroutine*, type()).
 Z8   a class that has a method re-initialising one of its memo tables (an invalidation method) re-initialises all of
@@ -166,17 +167,56 @@ def _call_name(c, fn):
     return name
 
 
+def _kept_alive(prog, f, site, arg):
+    """id(P) is a sound key component when the table cannot outlive P: the table is an attribute of a request context (a
+    class whose __init__ stores both the schema and the document it works on) and P is a parameter annotated as a schema
+    object or a document node — both are referenced by that context for as long as the table exists."""
+    if not (site.container.startswith("self.") and f.cls is not None and isinstance(arg, ast.Name)):
+        return False
+    holds = set()
+    for c in f.cls.mro():
+        init = c.methods.get("__init__") if hasattr(c, "methods") else None
+        if init is None:
+            continue
+        for n in own_walk(init.node):
+            if isinstance(n, ast.Attribute) and isinstance(n.ctx, ast.Store) and isinstance(n.value, ast.Name) and n.value.id == "self":
+                holds.add(n.attr)
+    if not {"schema", "document"} <= holds:
+        return False
+    for a in f.node.args.posonlyargs + f.node.args.args + f.node.args.kwonlyargs:
+        if a.arg == arg.id and a.annotation is not None:
+            for x in ast.walk(a.annotation):
+                nm = x.id if isinstance(x, ast.Name) else x.attr if isinstance(x, ast.Attribute) else None
+                if nm is None:
+                    continue
+                rr = prog.resolve_name(f.module, nm) if isinstance(x, ast.Name) else prog.resolve_expr(f.module, x)
+                if rr and rr[0] == "class" and rr[1].module.name in ("py_gql.schema.types", "py_gql.lang.ast"):
+                    return True
+    return False
+
+
 def check_memo_keys(prog, run, funcs, scope, floor):
     r = run.rule("Z7", "anchored modules (%s): the key of every hand-written memo table determines the remembered value — no key "
                        "component is id()/hash()/len()/str()/repr() of an object (ids are reused once the object is freed, the others "
                        "conflate values), and a component type(x) / x.__class__ is used only when the miss path looks at x through "
-                       "type-determined predicates (isinstance, issubclass, isawaitable, ...) alone" % scope, floor)
+                       "type-determined predicates (isinstance, issubclass, isawaitable, ...) alone; a parameter defaulting to a "
+                       "mutable container is such a memo table and nothing else" % scope, floor)
     sites = []
     for f in funcs:
         if isinstance(f.node, ast.Lambda):
             continue
         for s in memo_sites(f):
             sites.append(s)
+    # a mutable default argument is state shared by every call: the only use the package makes of one is a memo table
+    memo_containers = {(s.fi.key, s.container) for s in sites}
+    for f in funcs:
+        if isinstance(f.node, ast.Lambda):
+            continue
+        for pname in sorted(_default_containers(f.node)):
+            if (f.key, pname) not in memo_containers:
+                run.report(r, "%s:%s:mutable-default(%s)" % (f.module.name, f.qualname, pname), f.where(),
+                           "the parameter `%s` of %s defaults to a container created once, at definition time: whatever one call puts "
+                           "into it is there for every later call" % (pname, f.qualname))
     seen = set()
     for s in sites:
         f = s.fi
@@ -188,6 +228,8 @@ def check_memo_keys(prog, run, funcs, scope, floor):
             seen.add(ident)
         for c in comps:
             for x in ast.walk(c):
+                if isinstance(x, ast.Call) and isinstance(x.func, ast.Name) and x.func.id == "id" and x.args and _kept_alive(prog, f, s, x.args[0]):
+                    continue     # a request-scoped table keyed by the identity of an object the request itself keeps alive
                 if isinstance(x, ast.Call) and isinstance(x.func, ast.Name) and x.func.id in LOSSY and x.args:
                     run.report(r, "%s:%s:memo-key(%s:%s)" % (f.module.name, f.qualname, s.container, x.func.id), f.where(s.store),
                                "the memo table %s is keyed by `%s`: %s, so a later, different argument is answered with the value "
